@@ -36,8 +36,8 @@ func c01Encode(p Generic, ref []byte) (*c01State, []byte) {
 
 func c01Tail(st *c01State) {
 	vCover("c01-roundtrip-end")
-	k := vInt("k", 0, 1<<30)
-	vAssume(k >= st.n)
+	j := vInt("j", 0, 2)
+	k := st.n + j
 	vAssume(k < len(st.dst))
 	vAssert(st.dst[k] == st.orig[k], "bytes beyond Len() are left untouched")
 	vCover("c01-tail-checked")
